@@ -9,12 +9,19 @@ Theorem mark_model_matches_source :
 Proof. exact MarkSource.source_switches. Qed.
 Print Assumptions mark_model_matches_source.
 
-(* GC_Recurse / GC_Mark_Item have no early exit besides the leaf-type, prefilter, end-of-probe and
-   already-traced ones the model transcribes — no nesting-depth cap (the mark phase of the model has no depth
+(* GC_Recurse has no early exit besides the leaf-type one, and the decision tables of GC_Mark_Item,
+   GC_Mark_And_Recurse and the root loop of GC_Mark (read off the source, symbolically where the code is loop
+   free) equal the model's — no nesting-depth cap, no skipped case (the mark phase of the model has no depth
    bound; the depth the C code can reach is limited by the C stack only: modelled-not-verified, finding F1) *)
-Theorem tracer_has_no_other_exit : gc_recurse_returns = 2 /\ gc_mark_item_returns = 3.
+Theorem tracer_has_no_other_exit : gc_recurse_returns = 2 /\ gc_mark_shape_ok = true.
 Proof. exact MarkSource.source_tracer_exits. Qed.
 Print Assumptions tracer_has_no_other_exit.
+
+(* the internal objects of heap Zip / Slice / Range are allocated with new (managed), so containers held only by
+   such a view are reachable in the sense of the theorems: view -> internal Tuple / Range -> inputs *)
+Theorem view_internals_are_managed : view_internals_registered = true.
+Proof. exact MarkSource.source_view_internals. Qed.
+Print Assumptions view_internals_are_managed.
 
 Theorem threshold_model_matches_source : gc_threshold_shape_ok = true /\ gc_finaliser_alloc_widens = true.
 Proof. exact MarkSource.source_threshold. Qed.
